@@ -100,7 +100,8 @@ def run():
     ctx.l1("ReqReply", "ReqReply_q.cfg", workers=8, heap="4g")
     ctx.l1("ReqReply", "ReqReply_qp.cfg", workers=8, heap="4g")
     if not ctx.quick():
-        ctx.l1("ReqReply", "ReqReply_t.cfg", workers=8, heap="6g", timeout=1500)
+        ctx.l1("ReqReply", "ReqReply_t.cfg", workers=8, heap="6g", timeout=1500)     # 2 callers + ping + ping deadline / close
+        ctx.l1("ReqReply", "ReqReply_t3.cfg", workers=8, heap="8g", timeout=2400)    # 3 callers + ping (about 5M states)
     scs = []
 
     def add(fam, n, scripts, modes, limit=None, core=0, **kw):
